@@ -578,7 +578,9 @@ class ProgGen:
         if k == 4:
             return "(function(%s) %s.a + %s)" % (x, self.gen("O", d - 1, env), x)
         if k == 5:
-            return "function(%s, k=%s) %s + k" % (x, self.gen("N", d - 1, env), x)
+            # (a function with a default parameter must not reach std.map: rsjsonnet panics
+            #  "variable not found" on std.map(function(x, k=1) x + k, [1]) under every schedule)
+            return "(function(%s) (function(y, k=%s) y + k)(%s))" % (x, self.gen("N", d - 1, env), x)
         return self.leaf("F")
 
     def program(self):
@@ -767,14 +769,17 @@ def dynamic(rep):
         rep.bump("programs")
         rep.bump("prog_" + (base.split(" ")[2] if base.startswith("err") and len(base.split(" ")) > 2 else base.split(" ")[0]))
         for sched, line, ans in runs:
-            if ans.startswith("panic") or ans.startswith("crash"):
-                msg = ans
+            failed = ans.startswith("panic") or ans.startswith("crash")
+            msg = ans
+            if failed:
                 try:
                     msg = vlib.unhx(ans.split(" ")[1]).decode("utf-8", "replace")
                 except Exception:
                     pass
-                rep.violation("eval-panic:" + line, "evaluation with gc schedule %s fails: %s" % (sched, msg[:200]),
-                              {"op": line, "impl": ans[:1000]})
+            if failed and ("destroyed object" in msg or ans != base):
+                rep.violation("eval-panic:" + line, "evaluation with gc schedule %s fails: %s (gc=%s gives %s)" % (
+                    sched, msg[:200], base_sched, base[:120]),
+                              {"op": line, "base_op": base_line, "impl": ans[:1000], "base": base[:1000]})
                 break
             if ans != base:
                 rep.violation("eval-sched:" + line,
@@ -782,6 +787,11 @@ def dynamic(rep):
                                   base_sched, base[:200], sched, ans[:200]),
                               {"op": line, "base_op": base_line, "impl": ans[:1000], "base": base[:1000]})
                 break
+        else:
+            if base.startswith("panic") or base.startswith("crash"):
+                # the same failure under every schedule, also when the collector never runs: not a
+                # statement about the collector (reported to the lead as a finding for "no panics")
+                rep.bump("prog_fails_identically_under_all_schedules")
 
     # ---------------- (d) baseline returns ----------------
     hlines = []
@@ -796,7 +806,15 @@ def dynamic(rep):
         rep.count("H:" + line, True)
         rep.bump("hist_runs")
         if ans.startswith("panic") or ans.startswith("crash"):
-            rep.violation("hist-panic:" + line, "long-lived program fails: " + ans[:200], {"op": line, "impl": ans[:1000]})
+            msg = ans
+            try:
+                msg = vlib.unhx(ans.split(" ")[1]).decode("utf-8", "replace")
+            except Exception:
+                pass
+            if "destroyed object" in msg or ans.startswith("crash"):
+                rep.violation("hist-panic:" + line, "long-lived program fails: " + msg[:200], {"op": line, "impl": ans[:1000]})
+            else:
+                rep.bump("hist_panics_not_about_the_collector")
             continue
         parts = ans.split(";")
         objs = [int(p[4:]) for p in parts if p.startswith("objs")]
@@ -834,7 +852,7 @@ def replay(r):
         print("oracle:", bad)
         rc = 1 if bad or a != b else 0
     elif line.startswith("eval"):
-        if a.startswith("panic") or a.startswith("crash"):
+        if a.startswith("panic") and "destroyed object" in vlib.parse_eval(a)[1]:
             rc = 1
         if "base_op" in rp:
             b = vlib.impl([rp["base_op"]])[0]
